@@ -66,6 +66,7 @@ static long last_progress_step = 0;
 static int pct_changes[8];
 static int npct = 0;
 static int alloc_count = 0, fail_alloc_at = 0;
+static __thread int my_fail_in = 0;   /* fail the k-th next allocation made by THIS thread (vrt_fail_my_alloc_after) */
 static int quiet = 0;
 static long nplain = 0;
 
@@ -826,6 +827,7 @@ struct blk { char *base; size_t maplen; char *user; size_t n; int freed; };
 static struct blk blks[2048];
 static int nblks = 0;
 void vrt_fail_alloc_after (int k) { fail_alloc_at = k > 0 ? alloc_count + k : 0; }
+void vrt_fail_my_alloc_after (int k) { my_fail_in = k > 0 ? k : 0; }
 int vrt_alloc_count (void) { return alloc_count; }
 void *vrt_malloc (size_t n) {
 	size_t pg = 4096, len;
@@ -834,7 +836,7 @@ void *vrt_malloc (size_t n) {
 	struct thr *me = NULL;
 	if (started && self_id != 0) me = sched_point (K_MALLOC);
 	alloc_count++;
-	if (fail_alloc_at != 0 && alloc_count == fail_alloc_at) {
+	if ((fail_alloc_at != 0 && alloc_count == fail_alloc_at) || (my_fail_in > 0 && --my_fail_in == 0)) {
 		if (me) log_ev (me->id, K_MALLOC, 0, NULL, (uint32_t) n, 0, 0, "fail", 0);
 		vrt_count ("malloc_failed");
 		errno = ENOMEM;
